@@ -437,7 +437,7 @@ def write_baseline():
     print("baseline written: %d (file, kind) rows, totals %s" % (len(info["sites"]), info["total"]))
 
 
-REVIEW_NOTE = """(* REVIEW LOG of the last re-recording (/repo at d060422, 79 commits after b55902d).  Rows that grew since the
+REVIEW_NOTE = """(* REVIEW LOG of the last re-recording (/repo at 696874e; the commits after d060422 -- fdf832c same_tokens guard in sql/mod.rs (a call into sqlparser's tokenizer, `.ok()`, no unwrap / index), 0301a92, f30b660, 79abe54, 696874e -- add no site).  Rows that grew since the
    baseline of b55902d, every added site read in its context; each is restated with its guard in Model/ReviewedSites.v
    and proved unreachable in Proofs/ReviewedSitesProofs.v (theorems c12_reviewed_* of Props/C12.v), its text pinned in
    `modelled_expected`:
